@@ -10,6 +10,10 @@ pub mod pre;
 
 #[cfg(feature = "c03")]
 pub mod c03;
+#[cfg(feature = "c10")]
+pub mod c10;
+#[cfg(feature = "c13")]
+pub mod c13;
 #[cfg(feature = "c05")]
 pub mod c05;
 #[cfg(feature = "c09")]
@@ -20,6 +24,10 @@ pub fn tables() -> Vec<&'static [(&'static str, fn())]> {
     let mut v: Vec<&'static [(&'static str, fn())]> = Vec::new();
     #[cfg(feature = "c03")]
     v.push(c03::TABLE);
+    #[cfg(feature = "c10")]
+    v.push(c10::TABLE);
+    #[cfg(feature = "c13")]
+    v.push(c13::TABLE);
     #[cfg(feature = "c05")]
     v.push(c05::TABLE);
     #[cfg(feature = "c09")]
